@@ -53,6 +53,23 @@ func (ck *Check) add(o Obligation) {
 	ck.Obls = append(ck.Obls, o)
 }
 
+// shareRules runs another property's rule set and re-reports, under rule `as`, the obligations of
+// the rules in `from` (a rule decided once, obligation of two properties).
+func (ck *Check) shareRules(run func(*Check), as string, from ...string) {
+	sub := &Check{Prop: ck.Prop, P: ck.P, A: ck.A, Stats: map[string]int{}, cfg: ""}
+	run(sub)
+	want := map[string]bool{}
+	for _, f := range from {
+		want[f] = true
+	}
+	for _, o := range sub.Obls {
+		if want[o.Rule] {
+			o.Rule = as
+			ck.add(o)
+		}
+	}
+}
+
 func (ck *Check) ok(rule, key, pos, fn, required, found string) {
 	ck.add(Obligation{Rule: rule, Key: key, Pos: pos, Func: fn, Required: required, Found: trunc(found), Status: "discharged"})
 }
